@@ -233,6 +233,16 @@ theorem git_read_eq_returned (fixAuthor : Bool) (t t' : Table) (c r : Commit) (g
         congr 2
         omega
 
+/-- **Ids are never shared between different metadata**: the id chosen by `write_commit` is either
+new to the extras table or already associated with exactly the same extras (the Rust loop is
+unbounded; the model's fuel `t.length + 1` is proved sufficient: `adjustLoop_fuel_suffices`). -/
+theorem git_write_never_reuses_id (fixAuthor : Bool) (t t' : Table) (c r : Commit) (g : GitCommit)
+    (hw : gitWrite fixAuthor t c = .ok (t', g, r)) :
+    t.get? g = none ∨ t.get? g = some (serializeExtras c) := by
+  obtain ⟨g0, _, _, hg, _, _⟩ := gitWrite_ok fixAuthor t t' c r g hw
+  rw [hg]
+  exact adjustLoop_fuel_suffices t (serializeExtras c) g0
+
 /-- writing into the empty table, for a commit whose timestamps are whole seconds -/
 theorem gitWrite_empty_whole (c : Commit) (g : GitCommit) (hg : toGitCommit c = .ok g)
     (hrej : (sigRejected g.author || sigRejected g.committer) = false)
